@@ -15,14 +15,7 @@ open PsdVerif PsdVerif.TreeSt
 
 /-! ### The invariant holds initially and is preserved -/
 
-theorem inv_init (limit : Nat) : Inv (State.empty limit) where
-  live := by intro c x hx; cases hx
-  contOnly := by intro c h; exact absurd rfl h
-  layerOnly := by intro c x hx; cases hx
-  parentOk := by intro c x hx; cases hx
-  psdOk := by intro c x d hx; cases hx
-  nodup := by intro c; exact List.nodup_nil
-  acyclic := ⟨fun _ => 0, by intro c x hx; cases hx⟩
+theorem inv_init (limit : Nat) : Inv (State.empty limit) := inv_empty limit
 
 /-- **Invariant step** (exact guard). An operation preserves the invariant provided the layers it
 inserts are listed nowhere (`Guard`: the other operations detach first) and the interpreter's
@@ -86,10 +79,6 @@ def demo : State :=
   runState .current (State.empty 50)
     [.newDoc ⟨0, 0, 8, 8⟩, .newLayer (some 0) ⟨0, 0, 2, 2⟩, .newGroup (some 0), .newLayer (some 0) ⟨1, 1, 3, 3⟩,
      .append 0 1]
-
-/-- on a well-formed store "listed nowhere" only has to be checked for the live containers -/
-theorem detached_of_bounded {s : State} {x : Id} (i : Inv s) (h : ∀ c, c < s.next → x ∉ s.children c) :
-    Detached s x := fun c hc => h c (i.live c x hc).1 hc
 
 theorem demo_inv : Inv demo := by
   have i4 : Inv (runState .current (State.empty 50)
